@@ -172,6 +172,7 @@ func main() {
 				}
 			}
 		}
+		P.cleanupNative()
 	}
 	ev.WallS = time.Since(start).Seconds()
 	ev.Violations = nviol
